@@ -10,19 +10,19 @@ import (
 // global-variable table (engine/gojamodel.go); natively the equivalent real script runs in
 // the real goja.
 
-var zzProbeNames = []string{"a", "b", "Math"}
+var zzProbeNames = []string{"a", "b", "Math", "JSON"}
 
 func zzProbeScript(throws bool) string {
 	if zz.Symbolic() {
 		if throws {
-			return "PROBE:a,b,Math,_node throw"
+			return "PROBE:a,b,Math,JSON,_node throw"
 		}
-		return "PROBE:a,b,Math,_node"
+		return "PROBE:a,b,Math,JSON,_node"
 	}
 	if throws {
-		return `var r = [typeof a, typeof b, typeof Math, typeof _node].join(","); throw new Error(r)`
+		return `var r = [typeof a, typeof b, typeof Math, typeof JSON, typeof _node].join(","); throw new Error(r)`
 	}
-	return `[typeof a, typeof b, typeof Math, typeof _node].join(",")`
+	return `[typeof a, typeof b, typeof Math, typeof JSON, typeof _node].join(",")`
 }
 
 func zzPickArgs(tag string) ([]interface{}, []bool) {
@@ -65,7 +65,7 @@ func C20VmHygiene() {
 		switch {
 		case used2[i]:
 			want += "string"
-		case n == "Math":
+		case n == "Math" || n == "JSON":
 			want += "object"
 		default:
 			want += "undefined"
@@ -145,7 +145,7 @@ func C14ParJS() {
 			switch {
 			case used[i]:
 				w += "string"
-			case n == "Math":
+			case n == "Math" || n == "JSON":
 				w += "object"
 			default:
 				w += "undefined"
@@ -244,4 +244,57 @@ func C08CopyScalars() {
 		}
 	}
 	zz.Cover("copied")
+}
+
+
+// C20Results: a script whose result is NaN, +Infinity, -Infinity, null or undefined is an error,
+// never a value; the engine-side goja model produces these result kinds for the marker scripts,
+// natively the real goja evaluates the equivalent expressions.
+func C20Results() {
+	resetCaches()
+	k := zz.NondetChoice("kind", 6)
+	sym := []string{"RESULT:nan", "RESULT:posinf", "RESULT:neginf", "RESULT:null", "RESULT:undefined", "PROBE:a"}[k]
+	nat := []string{"0/0", "1/0", "-1/0", "null", "undefined", "typeof a"}[k]
+	script := nat
+	if zz.Symbolic() {
+		script = sym
+	}
+	v, err := JavaScript(nil, script)
+	if k < 5 {
+		zz.Cover("rejected")
+		zz.Assert(err != nil && v == nil, "a NaN / infinite / null / undefined result is an error, not a value")
+	} else {
+		zz.Cover("value")
+		zz.Assert(err == nil && v != nil, "an ordinary result is returned")
+	}
+}
+
+// C20ProgramCache: the compiled-program cache is keyed by the script text itself: two scripts
+// that differ only in whitespace inside a string literal are different programs.
+func C20ProgramCache() {
+	resetCaches()
+	lits := []string{"x y", "x  y", "x\ty"}
+	i := zz.NondetChoice("first", len(lits))
+	j := zz.NondetChoice("second", len(lits))
+	mk := func(l string) string {
+		if zz.Symbolic() {
+			return "PROBE:a LIT:'" + l + "'"
+		}
+		return "[typeof a].join(',') + '|" + l + "'"
+	}
+	unq := func(l string) string {
+		if l == "x\\ty" {
+			return "x\ty"
+		}
+		return l
+	}
+	_ = unq
+	r1, e1 := JavaScript(nil, mk(lits[i]))
+	r2, e2 := JavaScript(nil, mk(lits[j]))
+	zz.Assert(e1 == nil && e2 == nil, "both scripts run")
+	s1, _ := r1.(string)
+	s2, _ := r2.(string)
+	zz.Observe("results", s1, s2)
+	zz.Assert((s1 == s2) == (i == j), "each script gives its own result, whichever was compiled first")
+	zz.Cover("ran")
 }
